@@ -215,4 +215,20 @@ def run(ctx):
                                "find_close_in_word_fast) NOT driven: hook patch H1 not applied")
 
 
-# MUTANTS: see the block at the end of this file (filled in after mutation testing)
+# MUTANTS (scratch worktree /tmp/wt-c02 = HEAD + hooks/H1-kernel-reexports.patch,
+#          `VERIF_REPO=/tmp/wt-c02 ./check C02`, quick tier, seed 20260921):
+#  M1 broadword.rs select_in_word_broadword: `cumulative + byte_pop > k` -> `>=`        -> VIOLATION exit 1
+#     (w=[0,9]: sig kernel=select path=broadword; only reachable through hook H1)
+#  M2 x86.rs select_in_word_pdep: mask guard `k >= 63` -> `k > 63`                       -> VIOLATION exit 1
+#     (w=u64::MAX, k=63: shift overflow panic (-2) on paths dispatch and pdep)
+#  M3 scan.rs block_popcount_avx2: `for i in 0..2` -> `0..1` (second 256-bit lane lost) -> VIOLATION exit 1
+#     (blk event with only word 4..7 populated: sig kernel=block_popcount path=block_popcount_avx2)
+#  M4 bp.rs find_close_in_word: `remaining_bits = 63 - p` -> `64 - p`                    -> VIOLATION exit 1
+#     (w=[0,63]: Some(64) reported for the open at 63: sig kernel=find_close_in_word)
+#  Three more, run with a shortened procedure (same worktree; c02h rebuilt with the three changes together,
+#  recorded, and the trace split by event kind so each change is judged by its own Trace_WordKernels run):
+#  M5 popcount.rs popcount_word_portable: `((x >> 2) & M2)` -> `& M1`      -> "w" events rejected at event 6 of 400
+#  M6 table.rs select_in_byte: `if k >= 8` -> `if k > 8`                    -> "sb" events rejected at event 1 of 256
+#  M7 scan.rs scan_select block loop: `if total > rem` -> `>=`              -> "scan" events rejected at event 3 of 250
+#  Not run: find_unmatched_close_in_word `0..64` -> `0..63` (changes `r` of the words whose first unmatched
+#  close is bit 63).
